@@ -45,8 +45,8 @@ structure Config (α : Type) where
 def Config.calcStep (c : Config α) : α := c.maxCalcStep / 2.0
 
 structure Env (α : Type) where
-  /-- altitude (ft ASL) ↦ (density ratio, Mach 1 in fps) -/
-  air : α → α × α
+  /-- altitude (ft ASL) ↦ (density ratio, Mach 1 in fps); `none` = math domain error -/
+  air : α → Option (α × α)
   /-- Mach ↦ `drag_by_mach` -/
   dbm : α → α
 
@@ -202,6 +202,7 @@ def Filter.shouldRecord (f : Filter α) (skipFuel : Nat) (pos vel : Vec α) (mac
 inductive Err (α : Type) where
   | range (reason : Reason) (rows : List (Row α))
   | zeroDiv
+  | mathDomain
   | outOfFuel
   | zeroFinding (err : α) (iterations : Nat) (elevation : α)
 
@@ -245,31 +246,58 @@ def limitReason (cfg : Config α) (alt0 speed y : α) : Option Reason :=
   else if alt0 + y < cfg.minAltitude then some .minAltitude
   else none
 
+/-- the physical part of one loop iteration: wind update, atmosphere at the projectile's altitude,
+    one integration step.  Independent of everything that concerns recording. -/
+structure Phys (α : Type) where
+  ws : WindSock α
+  density : α
+  mach : α
+  out : StepOut α
+
+def physStep (r : Run α) (s : St α) (ws : WindSock α) : Option (Phys α) :=
+  let ws' := ws.update s.pos.x
+  match r.env.air (r.alt0 + s.pos.y) with
+  | none => none
+  | some (density, mach) =>
+    some ⟨ws', density, mach, step r.cfg.calcStep r.cfg.gravity r.env.dbm ws'.vec density mach s⟩
+
+/-- `n` iterations of the physical part alone: the state sequence of the shot -/
+def physIter (r : Run α) : Nat → St α → WindSock α → Option (St α × WindSock α)
+  | 0, s, ws => some (s, ws)
+  | n + 1, s, ws =>
+    match physStep r s ws with
+    | none => none
+    | some p => physIter r n p.out.st p.ws
+
+/-- what the recorder does in one iteration: the filter after `should_record` and the row (if any) -/
+def recordStep (r : Run α) (filterFlags skipFuel : Nat) (l : LoopSt α) (density mach : α) :
+    Except (Err α) (Filter α × List (Row α)) :=
+  let flt := { l.flt with currentFlag := fNONE }
+  if filterFlags ≠ 0 then
+    let (flt', data) := flt.shouldRecord skipFuel l.s.pos l.s.vel mach l.s.time
+    match data with
+    | some d =>
+      match mkRow r d.time d.pos d.vel d.vel.mag d.mach density l.drag flt'.currentFlag with
+      | some row => .ok (flt', row :: l.rows)
+      | none => .error .zeroDiv
+    | none => .ok (flt', l.rows)
+  else .ok (flt, l.rows)
+
 /-- one iteration of the `while` body -/
 def iterate (r : Run α) (filterFlags skipFuel : Nat) (l : LoopSt α) : Except (Err α) (LoopSt α) :=
-  let flt := { l.flt with currentFlag := fNONE }
-  let ws := l.ws.update l.s.pos.x
-  let (density, mach) := r.env.air (r.alt0 + l.s.pos.y)
-  let recd : Except (Err α) (Filter α × List (Row α)) :=
-    if filterFlags ≠ 0 then
-      let (flt', data) := flt.shouldRecord skipFuel l.s.pos l.s.vel mach l.s.time
-      match data with
-      | some d =>
-        match mkRow r d.time d.pos d.vel d.vel.mag d.mach density l.drag flt'.currentFlag with
-        | some row => .ok (flt', row :: l.rows)
+  match physStep r l.s l.ws with
+  | none => .error .mathDomain
+  | some p =>
+    match recordStep r filterFlags skipFuel l p.density p.mach with
+    | .error e => .error e
+    | .ok (flt', rows) =>
+      let o := p.out
+      match limitReason r.cfg r.alt0 o.speed o.st.pos.y with
+      | some reason =>
+        match mkRow r o.st.time o.st.pos o.st.vel o.speed p.mach p.density o.drag flt'.currentFlag with
+        | some row => .error (.range reason (row :: rows).reverse)
         | none => .error .zeroDiv
-      | none => .ok (flt', l.rows)
-    else .ok (flt, l.rows)
-  match recd with
-  | .error e => .error e
-  | .ok (flt', rows) =>
-    let o := step r.cfg.calcStep r.cfg.gravity r.env.dbm ws.vec density mach l.s
-    match limitReason r.cfg r.alt0 o.speed o.st.pos.y with
-    | some reason =>
-      match mkRow r o.st.time o.st.pos o.st.vel o.speed mach density o.drag flt'.currentFlag with
-      | some row => .error (.range reason (row :: rows).reverse)
-      | none => .error .zeroDiv
-    | none => .ok ⟨o.st, ws, flt', rows, o.drag, mach, density, o.speed⟩
+      | none => .ok ⟨o.st, p.ws, flt', rows, o.drag, p.mach, p.density, o.speed⟩
 
 def loop (r : Run α) (filterFlags skipFuel : Nat) (bound : α) : Nat → LoopSt α → Except (Err α) (LoopSt α)
   | 0, _ => .error .outOfFuel
